@@ -8,22 +8,27 @@ HARNESS = "h_c20"
 
 TRUSTED = [
     "Lean 4 kernel; axioms of every theorem audited (propext, Classical.choice, Quot.sound at most)",
-    "hand-written models lean/CppUModel/Model/TeamCity.lean (writer) and Model/OutputEvents.lean (registry loop, scripted tests), "
-    "tied to src/CppUTest/TeamCityTestOutput.cpp, TestOutput.cpp and TestRegistry.cpp by the h_c20 correspondence (whole captured stream "
-    "compared byte for byte, this run)",
-    "extractor translate/extract_escapes.py (branch table of printEscaped) regenerating Gen/EscapeTables.lean; its output is also "
-    "exercised by the correspondence",
+    "translators (token-structure readers) translate/extract_teamcity.py (the five overridden callbacks of TeamCityTestOutput and "
+    "TestOutput::printTestRun as statement lists; method table of CompositeTestOutput; shape checks of print/printVeryVerbose/"
+    "ConsoleTestOutput::printBuffer, the constructor and the header), translate/extract_runloop.py (TestRegistry::runAllTests as a "
+    "statement list; shape checks of the TestResult forwarders), translate/extract_escapes.py (branch table of printEscaped), "
+    "translate/extract_failure_ctors.py (member-initialiser lists of the TestFailure constructors, getters, isOutsideTestFile/"
+    "isInHelperFunction, FailFailure). Their output is executed by the driver (the writer and the registry loop are INTERPRETERS of "
+    "the regenerated lists), so a translator that misreads the source shows up as a byte difference in the correspondence of this run",
+    "the interpreters Model/TeamCity.lean (exec) and Model/TeamCityLoop.lean (loopGen), and the hand-written rest of the model: "
+    "Model/OutputEvents.lean (scripted tests, what runOneTest sends, counters and times of TestResult), TeamCity.summaryOut "
+    "(TestOutput::printTestsEnded) - tied to the code by the h_c20 correspondence (whole captured stream compared byte for byte)",
     "the contract of the console seam: every byte handed to PlatformSpecificFPuts(.., stdout) reaches the reader exactly once, in "
     "order (ConsoleTestOutput::printBuffer flushes after every write, so a forked test process starts with an empty buffer). The "
     "model stops at the seam; the contract is TESTED, not proved: a fifth of the generated runs (and corpus cases) go through the "
-    "real CommandLineTestRunner with -oteamcity - nearly half of them with -p and a failure message of 9-20 KB - in a process of "
-    "its own whose stdout is a fully buffered pipe, with the real fputs/fflush implementations; the bytes read from the pipe are "
-    "judged by the same oracles (each message once, balanced, values decode to the originals)",
+    "real CommandLineTestRunner with -oteamcity - nearly half of them with -p and a failure message of 9-20 KB, some with a test "
+    "process that stops itself and is continued - in a process of its own whose stdout is a fully buffered pipe, with the real "
+    "fputs/fflush implementations; the bytes read from the pipe are judged by the same oracles",
+    "for -p runs: C11's model of the wait loop (SepProc.parentLoop, imported) and the operating system's promise that a process that "
+    "was reported as exited or killed writes nothing any more; the interleaving of parent and child output is not determined, so "
+    "these runs are judged by the two decoders only (not diffed byte for byte)",
     "the TeamCity escaping rules as written down in Spec/TeamCity.lean (| before ' | [ ], |n, |r)",
-    "extractor translate/extract_failure_ctors.py (member-initialiser lists of the three TestFailure constructors, copy constructor, "
-    "getters, isOutsideTestFile/isInHelperFunction, FailFailure) regenerating Gen/FailureCtors.lean; exercised by the correspondence "
-    "through failures built by every constructor, from the test body and from a plugin's post-test action",
-    "SimpleString's == on the group name behaves as byte-string equality (property C13)",
+    "SimpleString's == on the group name behaves as byte-string equality, StringFrom(size_t/long) prints decimal digits (property C13)",
 ]
 ASSUMPTIONS = [
     "names, paths and messages are C strings (no NUL byte inside)",
@@ -32,13 +37,17 @@ ASSUMPTIONS = [
     "whole-stream decoding theorems assume it contains no '#' (a test can print a complete service message of its own: observation "
     "printed_text_can_inject_a_message); the -vv progress trace and the summary are modelled and proved free of '#'",
     "failures are reported by the running test about itself (TestFailure built from the current shell), as all check macros do",
+    "runs modelled byte for byte are those without -p and -ri (runInSeperateProcess_ and runIgnored_ false in the loop interpreter); "
+    "with -p the theorems are about any interleaving of the child's and the parent's messages, under the hypothesis that the parent "
+    "leaves the wait loop only when the child is gone (separate_process_late_failure_breaks_property shows it cannot be dropped)",
 ]
 RULE = ("scripted registries: 1-5 group runs, pass / fail through every TestFailure constructor (file+line+message, message only, file+line only, FailFailure; from the body "
         "and from a plugin's post-test action; inside the test, in a helper above it, in another file) / ignored tests, optional name filter, repeated runs on one output object (-r2/-r3; single-group registries and registries whose first and last group coincide frequent), names-paths-messages over printable ASCII with ' | [ ] CR LF frequent and some "
-        "longer than 100 bytes; non-trivial = the stream contains an escaped byte or a failure or an ignored test; distinct = distinct op sequences")
+        "longer than 100 bytes; 12 % of the direct runs through a CompositeTestOutput (TeamCity as first or second output); durations with 10-18 digits; a fifth of the runs through the real command-line runner on a real pipe, "
+        "nearly half of those with -p, 4 % of the -p runs with a test process that stops itself (SIGSTOP), is continued and goes on, followed by a slow test; non-trivial = the stream contains an escaped byte or a failure or an ignored test; distinct = distinct op sequences")
 
 
-def gen_case(rng, n, malformed=False, real_io=False):
+def gen_case(rng, n, malformed=False, real_io=False, stop_rate=0.04):
     ops = G.gen_registry(rng, n, empty_groups=malformed, repeat_groups=rng.random() < 0.4, with_package=False,
                          with_prints=rng.random() < 0.3, print_avoid="#", specials=G.SPECIAL_TC + "&<\"")
     # the file of a print line is printed raw as well
@@ -59,8 +68,27 @@ def gen_case(rng, n, malformed=False, real_io=False):
                 at = rng.choice(idx) + 1
                 w = ops[at - 1].split()
                 ops.insert(at, "fail %s %s %s" % (w[3], w[4], G.hx(big)))
+            if rng.random() < stop_rate:
+                # a test whose forked process stops itself and, once continued, goes on (and possibly fails), followed by
+                # a slow passing test: the runner has to keep waiting for the continued process
+                idx = [i for i, l in enumerate(ops) if l.startswith("test ") and l.endswith(" run")]
+                if idx:
+                    at = rng.choice(idx)
+                    ops.insert(at + 1, "childstop")
+                    w = ops[at].split()
+                    ops.append("test %s %s %s %d run" % (rng.choice([w[1], G.hx(G.text(rng, allow_empty=False))]),
+                                                         G.hx(G.text(rng, allow_empty=False)), w[3], rng.randint(1, 500)))
+                    ops.append("slow %d" % rng.choice([150, 300]))
         ops.append("run")
         return ops
+    if rng.random() < 0.12:
+        # the TeamCity output as outputOne_ / outputTwo_ of a CompositeTestOutput whose other output writes elsewhere
+        ops.insert(0, "composite %d" % rng.choice([1, 2]))
+    if rng.random() < 0.15:
+        # boundary durations: the clock jumps by more than 32 bits hold / by a value with many digits (print(size_t))
+        idx = [i for i, l in enumerate(ops) if l.startswith("tick ")]
+        if idx:
+            ops[rng.choice(idx)] = "tick %d" % rng.choice([0, 4294967295, 4294967296, 99999999999, 10 ** 15, 999999999999999999 // 4])
     ops.append("run")
     if rng.random() < 0.1:
         ops += G.gen_registry(rng, 2, with_filter=False, with_prints=False, specials=G.SPECIAL_TC)
@@ -94,8 +122,14 @@ signature = G.signature
 
 
 def translate(ctx):
-    from translate import extract_escapes, extract_failure_ctors
-    return (extract_escapes.run() or []) + (extract_failure_ctors.run() or [])
+    from translate import extract_escapes, extract_failure_ctors, extract_teamcity, extract_runloop
+    problems = []
+    for ex in (extract_escapes, extract_failure_ctors, extract_teamcity, extract_runloop):
+        try:
+            problems += ex.run() or []
+        except Exception as e:      # one extractor failing must not keep the others from regenerating their files
+            problems.append("%s cannot translate the current source: %s" % (ex.__name__.split(".")[-1], e))
+    return problems
 
 
 def ignore_line(l):
@@ -118,6 +152,8 @@ def nontrivial(r):
 def observe(r, rep):
     if "realio" in r.ops and "separate" in r.ops:
         rep.count("branch.real_io_separate_process")      # its stream (`outp`) is not kept for the diff
+        if "childstop" in r.ops:
+            rep.count("branch.separate_process_child_stopped_and_continued")
     s = _stream(r)
     if s is None:
         return
@@ -136,6 +172,11 @@ def observe(r, rep):
             rep.count("observation.empty_group_name_suite_not_finished")
     if "realio" in r.ops:
         rep.count("branch.real_io_command_line_runner")
+    elif any(l.startswith("composite ") for l in r.ops):
+        rep.count("branch.composite_output_position_" + next(l for l in r.ops if l.startswith("composite ")).split()[1])
+    m_ = re.findall(rb"duration='(\d+)'", s)
+    if any(len(d) >= 10 for d in m_):
+        rep.count("branch.duration_10_or_more_digits")
     if any(l.startswith("verbose 2") for l in r.ops):
         rep.count("branch.very_verbose")
         if b"before runAllPreTestAction" in s:
@@ -184,10 +225,29 @@ def tc_decode(v):
     return bytes(out)
 
 
+def stop_tests(ops):
+    """indices (in definition order) of the tests marked `childstop`, up to the first run"""
+    out, n = set(), 0
+    for l in ops:
+        w = l.split()
+        if not w:
+            continue
+        if w[0] == "run":
+            break
+        if w[0] == "test" and len(w) == 6:
+            n += 1
+        elif w[0] == "childstop" and len(w) == 1 and n:
+            out.add(n - 1)
+    return out
+
+
 def py_judge(ops, stream):
     """decode the stream with regular expressions and compare with the registry; returns a reason or None"""
     reg = G.read_registry(ops)
     separate = "separate" in ops
+    stops = stop_tests(ops)
+    for i, t in enumerate(reg["tests"]):
+        t["stop"] = i in stops
     if any(t["group"] == b"" for t in reg["tests"]):
         return None
     if any(a[0] == "print" and (b"#" in a[1] or b"#" in a[3]) for t in reg["tests"] for a in t["acts"]):
@@ -204,6 +264,9 @@ def py_judge(ops, stream):
             fs = G.failures(t)
             if separate and fs:
                 fs = fs + [(t["file"], t["line"], b"Failed in separate process")]
+            if separate and t["stop"] and not t["ignored"]:
+                # the runner reports the stop (and continues the child) before the child can report anything
+                fs = [(t["file"], t["line"], b"Stopped in separate process - continuing")] + fs
             for (ffile, fline, msg) in fs:
                 want.append(("testFailed", t["name"], ffile, fline, msg, t))
             want.append(("testFinished", t["name"]))
@@ -218,6 +281,17 @@ def py_judge(ops, stream):
             return "message at byte %d is not well formed: %r" % (m.start(), stream[m.start():m.start() + 80])
         attrs = [(k.decode(), tc_decode(v)) for k, v in _ATTR.findall(mm.group(2))]
         got.append((mm.group(1).decode(), attrs))
+    open_test = None
+    for name, attrs in got:
+        d = dict(attrs)
+        if name == "testStarted":
+            open_test = d.get("name")
+        elif name == "testFinished":
+            if open_test != d.get("name"):
+                return "testFinished name=%r while the open test is %r" % (d.get("name"), open_test)
+            open_test = None
+        elif name in ("testFailed", "testIgnored") and open_test != d.get("name"):
+            return "%s name=%r while the open test is %r" % (name, d.get("name"), open_test)
     if len(got) != len(want):
         return "%d messages, %d expected" % (len(got), len(want))
     for (name, attrs), w in zip(got, want):
@@ -267,21 +341,31 @@ def extra(ctx, exe):
 
 
 LEVEL_TEXT = ("Machine-checked Lean 4 theorems over an executable model of TeamCityTestOutput and of the registry's callback order, for "
-              "every registry (any number of groups and tests, any pass/fail/ignore pattern, any name filter) and all byte strings: "
-              "decoding an escaped value by the TeamCity rules returns the original; every ' and ] in an escaped value is preceded by an "
-              "odd run of | so a TeamCity reader ends a value exactly at its closing quote; the stream is the rendering of a message list "
-              "in which every value went through the escape; that message list is balanced (suite and test start/finish pair up, ignored "
-              "and failed messages name the open test) whenever no group name is empty. The escape table is regenerated from "
-              "printEscaped on every run and the theorems are re-checked against it; the whole captured stream of the real code is "
-              "compared byte for byte with the model on generated registries and judged by two independent decoders (Lean, Python). "
-              "Proved at stream level as well: the specification's own stream parser applied to the rendering of ANY message list "
-              "returns that list, and applied to the writer model's byte stream of any event list (default and -vv mode; text printed by "
-              "tests free of '#') it returns the run's message list with every value equal to the original. The -vv progress trace and the "
-              "summary are modelled, compared with the real output and proved unable to break balance or escaping.")
-LEVEL_NOTE = ("Trusted: Lean kernel; the hand-written writer/runner model (validated against the code by the correspondence of this run); "
-              "the extractor of the escape table; the TeamCity rules as written in Spec/TeamCity.lean. Outside the quantifier and only "
-              "observed (each stated as a theorem): empty group names (suite start without finish); text printed by tests is written raw "
-              "between messages - it cannot corrupt a message but can contain a complete service message of its own "
-              "(printed_text_can_inject_a_message). Not modelled: colour mode (escape codes in the summary only), the "
-              "'Test run i of n' text of repeated runs.")
-TECHNIQUE = "Lean 4 induction over the registry loop and per-byte escape lemmas over a regenerated table + differential correspondence harness + two independent decoders"
+              "every registry (any number of groups and tests, any pass/fail/ignore pattern, any name filter, any number of repetitions on "
+              "one output object) and all byte strings: decoding an escaped value by the TeamCity rules returns the original; every ' and ] "
+              "in an escaped value is preceded by an odd run of | so a TeamCity reader ends a value exactly at its closing quote; the stream "
+              "is the rendering of a message list in which every value went through the escape; that message list is balanced (suite and "
+              "test start/finish pair up, ignored and failed messages name the open test) whenever no group name is empty; the "
+              "specification's own stream parser applied to the writer's byte stream returns the run's message list with every value equal "
+              "to the original (default and -vv mode; text printed by tests free of '#'). REGENERATED from the source on every run, executed "
+              "by the model and re-proved: the five overridden callbacks and printTestRun as statement lists (every literal, which field "
+              "goes through printEscaped, order, guards, where currtest_/currGroup_ are assigned), the branch table of printEscaped, the loop "
+              "of TestRegistry::runAllTests as a statement list, the TestFailure constructors; source_run_balanced / source_run_decodes are "
+              "the end-to-end statements over the regenerated parts. Also proved: a TeamCity output inside a CompositeTestOutput produces the "
+              "same stream; with -p, for ANY interleaving of the child's messages and the parent's wait-loop failures the test's block is "
+              "balanced and every failure lies inside it, provided the parent leaves the wait loop only when the child is gone. The whole "
+              "captured stream of the real code is compared byte for byte with the model on generated registries and judged by two "
+              "independent decoders (Lean, Python).")
+LEVEL_NOTE = ("Trusted: Lean kernel; the translators (their output is executed by the driver and compared with the real output on every "
+              "run); the hand-written part of the runner model (what one test sends, TestResult's counters and times, the summary text) "
+              "validated by the correspondence of this run; the TeamCity rules as written in Spec/TeamCity.lean. Only shape-checked: "
+              "print(const char*/long/size_t), printVeryVerbose, ConsoleTestOutput::printBuffer, the TestResult forwarders, the "
+              "constructor, the method table of CompositeTestOutput. Outside the quantifier and only observed (each stated as a theorem): "
+              "empty group names (suite start without finish); text printed by tests is written raw between messages - it cannot corrupt "
+              "a message but can contain a complete service message of its own (printed_text_can_inject_a_message). -p runs are judged by "
+              "the decoders only (interleaving not determined); the hypothesis 'the parent waits until the child is gone' is C11's subject "
+              "and is tested here by a child that stops itself. Not modelled: colour mode, group filters, -ri, shuffling through the real "
+              "runner, two outputs of a composite sharing stdout (coverage/C20.md lists every function with its status).")
+TECHNIQUE = ("Lean 4 induction over the registry loop and per-byte escape lemmas; writer and registry loop are interpreters of statement lists "
+             "regenerated from the C++ on every run and proved equal to the hand-written model + differential correspondence harness "
+             "(in-memory, CompositeTestOutput, real pipe, -p with a stopped child) + two independent decoders")
